@@ -4,7 +4,7 @@
 EXTENDS CallsValue, Json, FP
 CONSTANT ObsFile
 Obs == ndJsonDeserialize(ObsFile)
-ProgOf(r) == [shape |-> r.shape, rootErr |-> r.rootErr, extErr |-> r.extErr, rootCtx |-> r.rootCtx, extCtx |-> r.extCtx, extId |-> r.extId, wrap |-> r.wrap, declB |-> r.declB, under |-> r.under, declL |-> r.declL]
+ProgOf(r) == [shape |-> r.shape, rootErr |-> r.rootErr, extErr |-> r.extErr, rootCtx |-> r.rootCtx, extCtx |-> r.extCtx, extId |-> r.extId, wrap |-> r.wrap, declB |-> r.declB, under |-> r.under, declL |-> r.declL, declH |-> r.declH]
 Rng0(q) == {q[i] : i \in DOMAIN q}
 RECURSIVE FromJ(_)
 FromJ(v) ==
@@ -13,7 +13,7 @@ FromJ(v) ==
     [] v.k = "s" -> [v EXCEPT !.es = [i \in DOMAIN v.es |-> FromJ(v.es[i])]]
     [] v.k = "m" -> [v EXCEPT !.kv = {<<FromJ(e[1]), FromJ(e[2])>> : e \in Rng0(v.kv)}]
     [] v.k = "st" -> [v EXCEPT !.fs = [i \in DOMAIN v.fs |-> FromJ(v.fs[i])]]
-ErrNeeded(p) == UsesExt(p) /\ p.extErr /\ ~p.rootErr
+ErrNeeded(p) == (UsesExt(p) /\ p.extErr /\ ~p.rootErr) \/ ~TailOK(p)
 CtxNeeded(p) == UsesExt(p) /\ p.extCtx /\ ~p.rootCtx
 GenFinger(r) ==
   LET p == ProgOf(r) IN
